@@ -154,6 +154,9 @@ func (hr *historyRepository) recordMiniblock(blockHeaderHash []byte, blockHeader
 	}
 
 	if hr.hasRecentlyInsertedMiniblockMetadata(miniblockHash, blockHeaderHash, epoch) {
+		// The metadata is in place, but a competing block recorded in between might have re-packed some of these transactions
+		// in another miniblock, so the transactions have to point to this miniblock again
+		hr.indexTransactionsOfMiniblock(miniblock, miniblockHash)
 		return nil
 	}
 
@@ -182,7 +185,12 @@ func (hr *historyRepository) recordMiniblock(blockHeaderHash []byte, blockHeader
 	}
 
 	hr.markMiniblockMetadataAsRecentlyInserted(miniblockHash, blockHeaderHash, epoch)
+	hr.indexTransactionsOfMiniblock(miniblock, miniblockHash)
 
+	return nil
+}
+
+func (hr *historyRepository) indexTransactionsOfMiniblock(miniblock *block.MiniBlock, miniblockHash []byte) {
 	for _, txHash := range miniblock.TxHashes {
 		errPut := hr.miniblockHashByTxHashIndex.Put(txHash, miniblockHash)
 		if errPut != nil {
@@ -190,8 +198,6 @@ func (hr *historyRepository) recordMiniblock(blockHeaderHash []byte, blockHeader
 			continue
 		}
 	}
-
-	return nil
 }
 
 func (hr *historyRepository) computeMiniblockHash(miniblock *block.MiniBlock) ([]byte, error) {
